@@ -8,6 +8,7 @@ mod art;
 mod bisim;
 mod cmodel;
 mod codec;
+mod corpus;
 mod ev;
 mod families;
 mod gen;
@@ -160,6 +161,81 @@ fn main() {
             let id = body["replay"]["id"].as_u64().unwrap() as u32;
             let seed = body["replay"]["seed"].as_u64().unwrap();
             println!("{:?}", scale_typegen_description::rust_value_from_seed(id, &r, &d.build(), seed, None, None).map(|t| t.to_string()));
+        }
+        "corpus-check" | "corpus-build" => {
+            // build N programs with real scale-info (and the real codec), compare with the model
+            let n: u64 = args.get(2).and_then(|s| s.parse().ok()).unwrap_or(60);
+            let seed = parse_seed(arg_val(&args, "--seed"));
+            let programs: Vec<(prog::Program, bool)> = (0..n).map(|k| (corpus::corpus_program(seed, k, k % 2 == 0), k % 2 == 0)).collect();
+            let b = corpus::build(&programs, "check");
+            println!("corpus build: ok={} in {:.1}s", b.exe.is_some(), b.secs);
+            if b.exe.is_none() {
+                for l in b.errors.lines().filter(|l| l.starts_with("error") || l.contains("-->")).take(40) {
+                    println!("  {l}");
+                }
+                corpus::cleanup(&b);
+                std::process::exit(2);
+            }
+            // reference encodings of every root, validated by the source type's real Decode
+            let mut queries = Vec::new();
+            let mut qmeta = Vec::new();
+            for (k, (p, codec)) in programs.iter().enumerate() {
+                if !*codec {
+                    continue;
+                }
+                let out = sim::simulate(p);
+                use rand::SeedableRng;
+                let mut rng = rand_chacha::ChaCha8Rng::seed_from_u64(seed ^ k as u64);
+                for (ri, id) in out.root_ids.iter().enumerate() {
+                    for _ in 0..8 {
+                        let mut bytes = Vec::new();
+                        let mut g = codec::EncGen { reg: &out.registry, rng: &mut rng, canonical_collections: true, budget: 200, saw_unit_compact: false, steps: 0 };
+                        if g.gen(*id, 0, &mut bytes).is_ok() {
+                            queries.push((k, ri, bytes));
+                            qmeta.push((k, ri));
+                        }
+                    }
+                }
+            }
+            match corpus::run(&b, programs.len(), &queries) {
+                Err(e) => {
+                    println!("corpus run failed: {e}");
+                    corpus::cleanup(&b);
+                    std::process::exit(2);
+                }
+                Ok((regs, answers)) => {
+                    let mut mismatches = 0;
+                    for (k, (p, _)) in programs.iter().enumerate() {
+                        if let Some(d) = corpus::compare(p, &regs[k]) {
+                            mismatches += 1;
+                            if mismatches <= 5 {
+                                println!("MODEL MISMATCH program {k}: {d}");
+                                println!("{}", p.render_source("TypeInfo").lines().filter(|l| !l.starts_with("use ") && !l.trim().is_empty()).collect::<Vec<_>>().join("\n"));
+                            }
+                        }
+                    }
+                    let mut bad = 0;
+                    for ((q, a), m) in queries.iter().zip(answers.iter()).zip(qmeta.iter()) {
+                        let want = format!("ok {} {}", q.2.len(), mon::c01::hex_full(&q.2));
+                        if *a != want {
+                            bad += 1;
+                            if bad <= 5 {
+                                println!("ENCODER MISMATCH program {} root {}: sent {} got {}", m.0, m.1, mon::c01::hex(&q.2), a.chars().take(120).collect::<String>());
+                            }
+                        }
+                    }
+                    println!("corpus: {} programs, {} model mismatches; {} reference encodings validated by the real codec, {} rejected", programs.len(), mismatches, queries.len(), bad);
+                    if cmd == "corpus-build" && mismatches == 0 {
+                        let entries: Vec<corpus::CorpusEntry> = programs.iter().enumerate().map(|(k, (p, c))| corpus::CorpusEntry { program: p.clone(), codec: *c, real_registry: regs[k].clone() }).collect();
+                        let path = verif_dir().join("corpus").join("corpus.json");
+                        std::fs::create_dir_all(path.parent().unwrap()).unwrap();
+                        std::fs::write(&path, serde_json::to_string(&entries).unwrap()).unwrap();
+                        println!("wrote {}", path.display());
+                    }
+                    corpus::cleanup(&b);
+                    std::process::exit(if mismatches == 0 && bad == 0 { 0 } else { 1 });
+                }
+            }
         }
         "warm" => {
             // setup aid: build the artifact dependencies once per target-dir slot
